@@ -1048,3 +1048,81 @@ func exactSizeGridCase(i int) *sem.Case {
 	}
 	return c
 }
+
+// longEnumCase: string enums with 16-40 values (unit names: mixed upper / lower case, digits, symbols, values that differ
+// only in case), integer enums with 20 values, typed and untyped, inline, through a definition, as array items: every
+// listed value is accepted (whatever lookup structure a long list is given), near misses are not.
+func longEnumCase(i int) *sem.Case {
+	// (values whose constant names differ: two values that normalise to one constant name are the recorded finding
+	// enum-const-collision)
+	units := []any{"B", "kB", "MB", "GB", "TB", "PB", "KiB", "MiB", "GiB", "TiB", "bit", "kbit", "Mbit", "Gbit", "byte", "octet", "Nibble", "word", "Dword", "qword", "Page", "block", "Sector", "track", "Cyl", "head",
+		"Zone", "unit", "Each", "dozen", "Gross", "pair", "Set", "lot", "Box", "case", "Pallet", "roll", "Sheet", "ream"}
+	n := []int{16, 18, 24, 40, 17, 32}[i%6]
+	vals := units[:n]
+	typed := (i/6)%2 == 0
+	mk := func() *sg.Schema {
+		s := &sg.Schema{HasEnum: true, Enum: vals}
+		if typed {
+			s.Types = []string{"string"}
+		}
+		return s
+	}
+	def := mk()
+	ints := &sg.Schema{Types: []string{"integer"}, HasEnum: true}
+	for k := 0; k < 20; k++ {
+		ints.Enum = append(ints.Enum, jsonx.N(int64((k*37)%101-50)))
+	}
+	root := &sg.Schema{Types: []string{"object"}, Defs: []sg.Prop{{Name: "Unit", S: def}}, Props: []sg.Prop{{Name: "unit", S: mk()}, {Name: "viaDef", S: &sg.Schema{Ref: "#/$defs/Unit", Target: def}},
+		{Name: "units", S: &sg.Schema{Types: []string{"array"}, Items: &sg.Schema{Ref: "#/$defs/Unit", Target: def}}}, {Name: "code", S: ints}}}
+	c := &sem.Case{Root: root, Sig: fmt.Sprintf("long-enum/%d/%v", n, typed), NoAuto: true}
+	if (i/12)%2 == 1 {
+		c.Args = []string{"--extra-imports"}
+	}
+	for _, v := range vals {
+		c.Docs = append(c.Docs, docgen.Doc{V: jsonx.Obj{{K: "unit", V: v}}, Class: "enum", Label: "member"}, docgen.Doc{V: jsonx.Obj{{K: "viaDef", V: v}, {K: "units", V: []any{vals[0], v}}}, Class: "enum", Label: "member-ref-item"})
+	}
+	for _, v := range units[n:] {
+		c.Docs = append(c.Docs, docgen.Doc{V: jsonx.Obj{{K: "unit", V: v}}, Class: "enum", Label: "non-member"})
+	}
+	for _, v := range []any{"KB", "kb", "gB", "BYTE", "", "k", "GiB ", "Byte", "mb"} {
+		c.Docs = append(c.Docs, docgen.Doc{V: jsonx.Obj{{K: "viaDef", V: v}}, Class: "enum", Label: "near-miss"})
+	}
+	for _, v := range ints.Enum {
+		c.Docs = append(c.Docs, docgen.Doc{V: jsonx.Obj{{K: "code", V: v}}, Class: "enum", Label: "int-member"})
+	}
+	c.Docs = append(c.Docs, docgen.Doc{V: jsonx.Obj{{K: "code", V: jsonx.N(51)}}, Class: "enum", Label: "int-non-member"}, docgen.Doc{V: jsonx.Obj{{K: "code", V: jsonx.N(-51)}}, Class: "enum", Label: "int-non-member"})
+	return c
+}
+
+// optionNeutralCase: options that speak about NAMES or TAGS next to schemas whose property names meet them head on -
+// `--capitalization iOS,eBay,macOS` with properties called exactly `ios`, `ebay`, `macos`; `--tags yaml` /
+// `--tags mapstructure,yaml` (no json tag at all) with plain lower-case property names - required keys at root,
+// nested, in array elements and behind a reference, typed values: the options change identifiers and tags, every
+// key is still decoded, type-checked and required.
+func optionNeutralCase(i int) *sem.Case {
+	names := [][3]string{{"ios", "ebay", "macos"}, {"name", "size", "tags"}}[(i/3)%2]
+	inner := &sg.Schema{Types: []string{"object"}, Props: []sg.Prop{{Name: names[0], S: &sg.Schema{Types: []string{"string"}}}, {Name: names[1], S: &sg.Schema{Types: []string{"integer"}}},
+		{Name: names[2], S: &sg.Schema{Types: []string{"array"}, Items: &sg.Schema{Types: []string{"string"}}}}}, Required: []string{names[0], names[1]}}
+	root := &sg.Schema{Types: []string{"object"}, Defs: []sg.Prop{{Name: "Device", S: inner}}, Props: []sg.Prop{{Name: names[0], S: &sg.Schema{Types: []string{"string"}}}, {Name: names[1], S: &sg.Schema{Types: []string{"integer"}}},
+		{Name: "device", S: &sg.Schema{Ref: "#/$defs/Device", Target: inner}}, {Name: "fleet", S: &sg.Schema{Types: []string{"array"}, Items: &sg.Schema{Ref: "#/$defs/Device", Target: inner}}}}, Required: []string{names[0]}}
+	c := &sem.Case{Root: root, Sig: fmt.Sprintf("option-neutral/%d", i%6), NoAuto: true}
+	switch i % 3 {
+	case 0:
+		c.Args = []string{"--capitalization", "iOS,eBay,macOS"}
+	case 1:
+		c.Args = []string{"--tags", "yaml"}
+	default:
+		// (without a json tag encoding/json binds by Go field name, case-insensitively: only combined with names whose
+		// field name is the key itself - not with a capitalization that renames the field)
+		c.Args = []string{"--tags", "mapstructure,yaml"}
+	}
+	dev := jsonx.Obj{{K: names[0], V: "x"}, {K: names[1], V: jsonx.N(3)}, {K: names[2], V: []any{"t"}}}
+	full := jsonx.Obj{{K: names[0], V: "r"}, {K: names[1], V: jsonx.N(1)}, {K: "device", V: dev}, {K: "fleet", V: []any{dev}}}
+	c.Docs = append(c.Docs, docgen.Doc{V: full, Class: "valid", Label: "all-keys"}, docgen.Doc{V: jsonx.Obj{{K: names[0], V: "r"}}, Class: "valid", Label: "minimal"},
+		docgen.Doc{V: full.Del(names[0]), Class: "required", Label: "root-required-absent"},
+		docgen.Doc{V: full.Set("device", dev.Del(names[0])), Class: "required", Label: "ref-required-absent"}, docgen.Doc{V: full.Set("device", dev.Del(names[1])), Class: "required", Label: "ref-required-absent"},
+		docgen.Doc{V: full.Set("fleet", []any{dev, dev.Del(names[1])}), Class: "required", Label: "item-required-absent"},
+		docgen.Doc{V: full.Set(names[0], jsonx.N(5)), Class: "type", Label: "root-wrong-type"}, docgen.Doc{V: full.Set(names[1], "seventeen"), Class: "type", Label: "root-wrong-type"}, docgen.Doc{V: full.Set(names[1], jsonx.Num("17.5")), Class: "type", Label: "root-wrong-type"},
+		docgen.Doc{V: full.Set("device", dev.Set(names[0], jsonx.Obj{})), Class: "type", Label: "ref-wrong-type"}, docgen.Doc{V: full.Set("fleet", []any{dev.Set(names[2], []any{jsonx.N(1)})}), Class: "type", Label: "item-wrong-type"})
+	return c
+}
